@@ -68,6 +68,7 @@ class Group(object):
         self.inputs = inputs
         self.opts = list(opts)
         self.cls = inputs[0].cls
+        self.midk = False         # generated programs: also run under forced schedules with 50 <= k < 1000
 
 
 ILL_TYPED = [  # appended to a rendered program: each line adds a diagnostic
@@ -129,7 +130,11 @@ def make_inputs(seed, tier):
     add("tiny", [corpus_input(c, "tiny", "t") for c in t_plain])
     add("tinyerr", [corpus_input(c, "tiny", "te") for c in t_err[:max(3, n_tiny // 3)]], ["-DTestErrorsToo"])
     # generated programs (the AldorSem family), a few of them made ill-typed
-    progs = progen.generate((seed + 8) % 1000003, n_gen + n_bad)
+    # the Java generator aborts on try/catch ("Java not implemented"), which ends a whole batch: most programs avoid it
+    notry = [f for f in progen.ALL_FEATURES if f != "try"]
+    n_try = max(1, n_gen // 8)
+    progs = (progen.generate((seed + 8) % 1000003, n_gen - n_try, notry) + progen.generate((seed + 9) % 1000003, n_try)
+             + progen.generate((seed + 10) % 1000003, n_bad, notry))
     gens = []
     for i, p in enumerate(progs):
         text = render.render(p)
@@ -142,6 +147,11 @@ def make_inputs(seed, tier):
     add("gen", good[:half])
     add("genq", good[half:], ["-Q3"])
     add("genbad", bad)
+    marked = 0
+    for g in groups:
+        if g.gid.startswith("gen") and not g.opts and marked < (1 if tier == "quick" else 8):
+            g.midk = True
+            marked += 1
     # corpus programs over the library: plain and with planted errors
     c_err = [c for c in big if "TestErrorsToo" in c[1]]
     add("corpus", [corpus_input(c, "corpus", "c") for c in big[:n_corpus]])
@@ -186,7 +196,7 @@ def split_batch_stream(text, names):
 
 
 class Runner(object):
-    def __init__(self, build, workdir, keep_limit=400):
+    def __init__(self, build, workdir):
         self.wd = workdir
         self.aldor = os.path.join(workdir, "aldor-under-test")
         shutil.copy(build["aldor"], self.aldor)          # the shared build cache may evict its directory mid-run
@@ -194,11 +204,12 @@ class Runner(object):
         self.keep = os.path.join(workdir, "keep")
         os.makedirs(self.keep, exist_ok=True)
         self.kept = {}            # (input, digest tuple) -> path of a copy (detail of a disagreement only)
-        self.commands = {}        # (gid, cfg id) -> list of command lines (for the replay file)
+        self.commands = {}        # (gid, cfg id) -> how the run was made (for the replay file)
         self.nruns = 0
         self.paths_recorded = set()
         self.lock = threading.Lock()
         self.durations = {}
+        self.unreached = 0        # files of a batch that a failed invocation never started
 
     def check_aslr_switch(self):
         """setarch -R must really switch randomisation off in this sandbox (and it must be on otherwise)."""
@@ -212,75 +223,79 @@ class Runner(object):
         if len(set(on)) < 2:
             raise vlib.MachineryError("address space layout randomisation is not active: the aslr axis would be vacuous")
 
-    def run(self, group, conf, nth):
-        """conf: one CONFIG record exported by DetCfg.  Returns list of events + bookkeeping."""
+    def invoke(self, group, conf, files, nth):
+        """One compiler invocation on `files` (names) of `group` under configuration `conf` (a CONFIG record of DetCfg).
+        Returns {"rc", "obs": {(name, kind): bytes digest list}, "reached": [names]}."""
         c = conf["cfg"]
         t_start = time.time()
         top = os.path.join(self.wd, "r%06d" % nth)
         d = os.path.join(top, CWD[c["cwd"]])
         os.makedirs(d)
-        names = [i.name for i in group.inputs]
-        for i in group.inputs:
-            with open(os.path.join(d, i.name), "w", encoding="latin-1") as fh:
-                fh.write(i.text)
+        texts = {i.name: i for i in group.inputs}
+        for n in files:
+            with open(os.path.join(d, n), "w", encoding="latin-1") as fh:
+                fh.write(texts[n].text)
         env = {} if c["env"] == "empty" else polluted_env(c["rep"])
         for k, v in conf["envadd"]:
             env[k] = v
         pre = [self.setarch if w == "setarch" else w for w in conf["wrapper"]]
-        base = pre + [self.aldor] + vlib.ALDOR_BASE_ARGS + list(conf["args"]) + group.opts + [f for _, f in KINDS]
-        invs = [names] if c["inv"] == "batch" else [[n] for n in names]
+        cmd = pre + [self.aldor] + vlib.ALDOR_BASE_ARGS + list(conf["args"]) + group.opts + [f for _, f in KINDS] + list(files)
+        rc, out, err, to = vlib.run(cmd, cwd=d, timeout=1500, env=env)
+        if to:
+            raise vlib.MachineryError("compiler timed out: %s (cwd %s, cfg %s)" % (" ".join(cmd), d, conf["id"]))
+        tail = b"\0stderr:" + err + (b"\0signal %d" % -rc if rc < 0 else b"")
         msgs = {}
-        cmds = []
-        rcsum = 0
-        for files in invs:
-            cmd = base + files
-            cmds.append(cmd)
-            rc, out, err, to = vlib.run(cmd, cwd=d, timeout=1500, env=env)
-            if to:
-                raise vlib.MachineryError("compiler timed out: %s (cwd %s, cfg %s)" % (" ".join(cmd), d, conf["id"]))
-            rcsum += rc if rc >= 0 else 1000 - rc
-            if len(files) == 1:
-                msgs[files[0]] = out + b"\0stderr:" + err + (b"\0signal %d" % -rc if rc < 0 else b"")
-            else:
-                seg = split_batch_stream(out, files)
+        if len(files) == 1:
+            msgs[files[0]] = out + tail
+            reached = list(files)
+        else:
+            seg = split_batch_stream(out, files)
+            reached = [n for n in files if seg[n] is not None]
+            for n in reached:
+                msgs[n] = seg[n] + (tail if n == reached[-1] else b"\0stderr:")
+            if rc == 0 or not reached:
+                # a successful invocation must have announced every file: a missing one is observed as absent
                 for n in files:
-                    msgs[n] = None if seg[n] is None else seg[n] + b"\0stderr:" + (err if n == files[-1] else b"")
-                if rc < 0:
-                    msgs[files[-1]] = (msgs[files[-1]] or b"") + b"\0signal %d" % -rc
-        with self.lock:
-            self.nruns += len(invs)
-        self.commands[(group.gid, conf["id"])] = {"cwd": d, "env_kind": c["env"], "envadd": conf["envadd"], "commands": cmds}
-        events = []
+                    msgs.setdefault(n, None)
+                reached = list(files)
+            else:
+                # the invocation failed (fatal error, abort) inside its last announced file: the files after it were
+                # never started, which the failing file's own diagnostics and the exit status already show
+                last = files.index(reached[-1])
+                for n in files[:last]:
+                    msgs.setdefault(n, None)
+                reached = list(files[:last + 1])
+        obs = {}
         dtag = d.encode()
-        for i in group.inputs:
+        for n in reached:
             for kind in KIND_NAMES:
                 if kind == "msg":
-                    data = msgs[i.name]
+                    data = msgs[n]
                 else:
-                    p = out_file(d, i.stem, kind)
+                    p = out_file(d, n[:-3], kind)
                     data = open(p, "rb").read() if os.path.isfile(p) else None
                 if data is not None and dtag in data:
                     self.paths_recorded.add(kind)
                 dg = ABSENT if data is None else digest_words(data)
-                key = "%s|%s" % (i.name, kind)
-                events.append({"ev": "Observe", "input": key, "cfg": c, "digest": dg})
-                if c["inv"] == "batch":
-                    # the batch as a whole is an input too: the same multi-file command line must reproduce itself
-                    events.append({"ev": "Observe", "input": "%s|%s|in-batch:%s" % (i.name, kind, group.gid), "cfg": c, "digest": dg})
+                obs[(n, kind)] = dg
+                key = "%s|%s" % (n, kind)
                 kk = (key, tuple(dg))
                 with self.lock:
-                    if kk not in self.kept and len(self.kept) < 4000 and data is not None:
+                    if kk not in self.kept and len(self.kept) < 6000 and data is not None:
                         variants = sum(1 for (k2, _) in self.kept if k2 == key)
                         if variants < 3:
-                            kp = os.path.join(self.keep, "%s.%s.%d" % (i.name, kind, variants))
+                            kp = os.path.join(self.keep, "%s.%s.%d" % (n, kind, variants))
                             with open(kp, "wb") as fh:
                                 fh.write(data)
                             self.kept[kk] = kp
-        # the exit status of the group: the sum of the error counts
-        events.append({"ev": "Observe", "input": "%s|exit" % group.gid, "cfg": c, "digest": [rcsum, 0, 0, 0]})
         shutil.rmtree(top, ignore_errors=True)
-        self.durations[(group.gid, conf["id"])] = time.time() - t_start
-        return events
+        with self.lock:
+            self.nruns += 1
+            self.unreached += len(files) - len(reached)
+            ent = self.commands.setdefault((group.gid, conf["id"]), {"cwd": d, "env": c["env"], "envadd": conf["envadd"], "commands": []})
+            ent["commands"].append(" ".join(cmd))
+            self.durations[(group.gid, conf["id"], files[0])] = time.time() - t_start
+        return {"rc": rc, "obs": obs, "reached": reached, "files": list(files)}
 
     def describe_difference(self, key, dg1, dg2):
         """Human-readable detail for the replay file (never used for the verdict)."""
@@ -288,7 +303,7 @@ class Runner(object):
         if not p1 or not p2:
             return "(one side absent or not kept: digests %s / %s)" % (dg1, dg2)
         a, b = open(p1, "rb").read(), open(p2, "rb").read()
-        if key.endswith("|ao") or b"\0" in a[:4096].replace(b"\0stderr:", b""):
+        if key.endswith("|ao"):
             n = next((i for i in range(min(len(a), len(b))) if a[i] != b[i]), min(len(a), len(b)))
             return "binary: lengths %d/%d, first difference at byte %d: %r / %r" % (len(a), len(b), n, a[n:n + 24], b[n:n + 24])
         ud = difflib.unified_diff(a.decode("latin-1").splitlines(), b.decode("latin-1").splitlines(), "first", "other", lineterm="", n=1)
@@ -346,8 +361,8 @@ def plan(confs, groups, tier, seed):
             if c["id"] in seen or g.cls not in c["classes"]:
                 continue
             seen.add(c["id"])
-            # thorough: mid periods are expensive on generated programs; apply them to every third group
-            if tier != "quick" and g.cls == "gen" and 0 < c["cfg"]["gc"]["k"] < 1000 and (hash_int(g.gid) % 3):
+            # periods below 1000 cost 10-100 s of CPU per generated program: only the groups marked for it get them
+            if g.cls == "gen" and 0 < c["cfg"]["gc"]["k"] < 1000 and not g.midk:
                 continue
             pairs.append((g, c))
             chosen[c["id"]] = c
@@ -359,23 +374,51 @@ def hash_int(s):
 
 
 def cost(g, c):
+    """Estimated CPU seconds of one file of group g under configuration c (measured on this machine, unloaded)."""
     k = c["cfg"]["gc"]["k"]
-    unit = {"tiny": 0.02, "gen": 0.12, "corpus": 0.25}[g.cls] * len(g.inputs)
-    return unit * (1 + (1100.0 / k if k else 0) * (0.15 if g.cls == "tiny" else 1))
+    unit, per = {"tiny": (0.006, 250.0), "gen": (0.09, 15000.0), "corpus": (0.05, 10000.0)}[g.cls]
+    return unit * (1 + (per / k if k else 0))
 
 
 def run_all(runner, pairs, nproc):
-    """Run every (group, configuration) pair; returns events grouped by input, the baseline observation first."""
-    order = sorted(range(len(pairs)), key=lambda i: -cost(*pairs[i]))       # longest first
-    results = [None] * len(pairs)
+    """Run every (group, configuration) pair -- one job per compiler invocation -- and turn the results into Observe
+    events grouped by monitor input, the baseline observation first (so that `first` in a report is the baseline)."""
+    jobs = []
+    for pi, (g, c) in enumerate(pairs):
+        names = [i.name for i in g.inputs]
+        for files in ([names] if c["cfg"]["inv"] == "batch" else [[n] for n in names]):
+            jobs.append((pi, files))
+    order = sorted(range(len(jobs)), key=lambda j: -cost(pairs[jobs[j][0]][0], pairs[jobs[j][0]][1]) * len(jobs[j][1]))
+    results = [None] * len(jobs)
     with concurrent.futures.ThreadPoolExecutor(max_workers=nproc) as ex:
-        futs = {ex.submit(runner.run, pairs[i][0], pairs[i][1], i): i for i in order}
+        futs = {ex.submit(runner.invoke, pairs[jobs[j][0]][0], pairs[jobs[j][0]][1], jobs[j][1], j): j for j in order}
         for f in concurrent.futures.as_completed(futs):
             results[futs[f]] = f.result()
+    per_pair = {}
+    for (pi, files), r in zip(jobs, results):
+        per_pair.setdefault(pi, []).append(r)
     by_input = {}
-    for (g, c), evs in zip(pairs, results):
-        for e in evs:
-            by_input.setdefault(e["input"], []).append((c["dist"], c["id"], e))
+
+    def emit(c, key, dg):
+        by_input.setdefault(key, []).append((c["dist"], c["id"], {"ev": "Observe", "input": key, "cfg": c["cfg"], "digest": dg}))
+    for pi, (g, c) in enumerate(pairs):
+        rs = per_pair[pi]
+        batch = c["cfg"]["inv"] == "batch"
+        complete = True
+        rcsum = 0
+        for r in rs:
+            rcsum += r["rc"] if r["rc"] >= 0 else 1000 - r["rc"]
+            complete = complete and len(r["reached"]) == len(r["files"])
+            for (n, kind), dg in r["obs"].items():
+                emit(c, "%s|%s" % (n, kind), dg)
+                if batch:
+                    # the batch as a whole is an input too: the same multi-file command line must reproduce itself
+                    emit(c, "%s|%s|in-batch:%s" % (n, kind, g.gid), dg)
+        # the exit status of the group = the sum of the error counts (comparable only if every file was started)
+        if complete:
+            emit(c, "%s|exit" % g.gid, [rcsum, 0, 0, 0])
+        if batch:
+            emit(c, "%s|exit|in-batch:%s" % (g.gid, g.gid), [rcsum, 0, 0, 0])
     out = {}
     for k, lst in by_input.items():
         lst.sort(key=lambda t: (t[0], t[1]))
